@@ -324,6 +324,19 @@ func (d *detInfo) rangeOf(e *termEnv, v ssa.Value) interval {
 		if ranged := rangeIndexOf(bo); ranged != nil {
 			// the index of "for i := range s": [0, len(s)-1]; the length is known for a re-sliced s = t[lo:hi]
 			sl, isSl := ranged.(*ssa.Slice)
+			if !isSl {
+				// ranging over a whole frame (its rows) or over a whole pixel row: the index runs over the full height
+				// rowStop+start resp. the full width columnStop+start (frames are allocated for the camera the detector
+				// was built for: ctor relations rowStop = ResY - start, columnStop = ResX - start)
+				if u, isLoad := ranged.(*ssa.UnOp); isLoad && u.Op == token.MUL {
+					if fa, isFA := u.X.(*ssa.FieldAddr); isFA && isPixField(fa) {
+						return interval{lo: lin{}, hi: lin{r: 1, s: 1, k: -1}, ok: true}
+					}
+				}
+				if _, _, _, _, _, isRow := pixRowOf(ranged); isRow {
+					return interval{lo: lin{}, hi: lin{c: 1, s: 1, k: -1}, ok: true}
+				}
+			}
 			if !isSl || sl.Max != nil {
 				return interval{why: "range over a slice of unknown length: " + e.termOf(ranged).String()}
 			}
